@@ -17,8 +17,8 @@ theorem isTest_not_jump (n : String) (h : isTest n = true) : isJump n = false :=
 theorem testChain_corr (cx : Cx) (L : Nat) : ∀ (bps : List BP) (js : List LItem) (hs : List Hdr) (tgt : BP → Nat),
     HdrsTo tgt bps js → (∀ b ∈ bps, tgt b = L) → NamesOf hs bps → HdrsOK hs →
     ∀ r p, Placed cx.rs r p js → ∀ (onT onN : Nat) (b : Src.B),
-      Grow b (Src.testChain [] (hs.map hdrEv) onT onN b).1 ∧
-      (AgreeOn cx.N b (Src.testChain [] (hs.map hdrEv) onT onN b).1 → ∀ m j, R2 cx m j (target cx.rs L) onT →
+      Grow cx.Z b (Src.testChain [] (hs.map hdrEv) onT onN b).1 ∧
+      (AgreeOn cx.N cx.Z b (Src.testChain [] (hs.map hdrEv) onT onN b).1 → ∀ m j, R2 cx m j (target cx.rs L) onT →
         R2 cx m j ⟨r, p + js.length⟩ onN → R2 cx m j ⟨r, p⟩ (Src.testChain [] (hs.map hdrEv) onT onN b).2) := by
   intro bps js hs tgt hh
   induction hh generalizing hs with
@@ -48,7 +48,7 @@ theorem testChain_corr (cx : Cx) (L : Nat) : ∀ (bps : List BP) (js : List LIte
       refine ⟨g1.trans (Grow.push _ _), fun hag m j hT hN => ?_⟩
       rw [a2]
       have hN1 : cx.N[(tbl b1).length]? = some (.test (Src.substEv [] (hdrEv h0)) onT re) := by
-        rw [hag _ g1.len (by rw [a1]; simp), a1]; simp
+        rw [hag.2 _ g1.len (by rw [a1]; simp), a1]; simp
       have ht := hok h0 (by simp)
       have hit : itemAt cx.rs ⟨r, p⟩ = some (.ljump ⟨n, b0.name, b0.params⟩ (some (tgt b0))) := by
         simpa using hp.item (d := 0) rfl
@@ -97,7 +97,7 @@ theorem block_patched (E : Nat) (sL eL : Nat) (ops js : List LItem) (hno : NoNon
 /-- entering a block at its start label runs the body -/
 theorem block_enter (cx : Cx) {ops : List LItem} {s0 s1 : St} {trBody : Nat → Src.B → Src.B × Nat} {env : Src.Env}
     (hBody : PieceOK cx ops s0 s1 trBody env) (sL : Nat) (tail : List LItem) {r ib : Nat}
-    (hp : Placed cx.rs r ib ([.label sL false] ++ ops ++ tail)) (k : Nat) (b : Src.B) (hag : AgreeOn cx.N b (trBody k b).1)
+    (hp : Placed cx.rs r ib ([.label sL false] ++ ops ++ tail)) (k : Nat) (b : Src.B) (hag : AgreeOn cx.N cx.Z b (trBody k b).1)
     (m j : Nat) (hex : ExitsOK cx m j s0 env) (hafter : falls ops = true → R2 cx m j ⟨r, ib + 1 + ops.length⟩ k) :
     R2 cx m j ⟨r, ib⟩ (trBody k b).2 ∧ target cx.rs sL = ⟨r, ib⟩ := by
   have hit : itemAt cx.rs ⟨r, ib⟩ = some (.label sL false) := by simpa using hp.item (d := 0) (by simp)
